@@ -1,15 +1,18 @@
 (* C10 - lemmas about Model/Teardown.v *)
 From Coq Require Import NArith String List Bool Arith Lia.
-From UPF Require Import Base.LTS Model.Teardown.
+From UPF Require Import Base.LTS Model.Teardown Proofs.TeardownInv
+  Proofs.TeardownInvRd Proofs.TeardownInvSel Proofs.TeardownInvHb Proofs.TeardownInvFst.
 Import ListNotations.
+Open Scope list_scope.
 
-(* ------------------------------------------------------------------ witnesses (refutations of the full statements) *)
-Definition one_live (k : list N) : list acfg := [ACfg k false None].
-
-(* F21a: Stop with one live association: the node closes pConnDone before the connection reports *)
-Definition w_send_closed : list tid :=
-  [TEnv 0; TStop; TNode 1; TNode 0; TNode 0; TNode 0; TNode 0;   (* cancel; ctx branch; Close; drain; len; close(pConnDone) *)
-   TA 0 RSel 1; TA 0 RSel 0; TA 0 RSel 0; TA 0 RSel 0; TA 0 RSel 0; TA 0 RSel 0; TA 0 RSel 0; TA 0 RSel 0].
-Lemma stop_send_on_closed :
-  s_panic (run (init (one_live [7%N]) [EStop]) w_send_closed) = Some "send on closed channel"%string.
-Proof. vm_compute. reflexivity. Qed.
+Lemma ainv_step sess me r alt nd a nd' a' t' :
+  is_assoc_role r = true -> AInv sess a ->
+  thread_step me r alt nd a (get_thr a r) = Ok (nd', a', t') ->
+  AInv sess (set_thr a' r t').
+Proof.
+  intros Hr. destruct r; try discriminate Hr.
+  - apply ainv_step_rd.
+  - apply ainv_step_sel.
+  - apply ainv_step_hb.
+  - apply ainv_step_fst.
+Qed.
